@@ -40,7 +40,8 @@ def cpu_statistics(latest_values: JiffiesList, ref_values: JiffiesList) -> CPUIn
         work = latest_work - ref_work
         idle = latest_idle - ref_idle
         total = work + idle
-        cpu.append(100.0 * work / total if total else 0)
+        # NOTE: divide first so that the ratio cannot exceed 1.0 when rounded, then scale
+        cpu.append(100.0 * (work / total) if total else 0)
     return cpu
 
 
